@@ -46,6 +46,14 @@ struct Inner {
     by_key: BTreeMap<String, (u64, Violation)>,
 }
 
+thread_local! {
+    static KEY_SUFFIX: std::cell::RefCell<Option<String>> = const { std::cell::RefCell::new(None) };
+}
+/// every violation reported by this thread until the next call carries `[tag]` at the end of its key
+pub fn set_key_suffix(tag: Option<String>) {
+    KEY_SUFFIX.with(|s| *s.borrow_mut() = tag);
+}
+
 impl Reporter {
     pub fn new(property: &str, tier: &str) -> Self {
         let seed = std::env::var("VERIF_SEED")
@@ -88,6 +96,14 @@ impl Reporter {
     }
 
     pub fn report(&self, mut v: Violation) {
+        // a cause tag set by the calling thread for the case at hand (so that one cause gives one key)
+        KEY_SUFFIX.with(|s| {
+            if let Some(sfx) = s.borrow().as_ref()
+                && !v.key.starts_with("machinery.")
+            {
+                v.key = format!("{}[{sfx}]", v.key);
+            }
+        });
         v.key = v.key.replace(' ', "_");
         let mut g = self.inner.lock().unwrap();
         match g.by_key.get_mut(&v.key) {
